@@ -727,6 +727,26 @@ class ExecutionState:
 
                     # Exit the loop - error has been signaled to main thread via completion events
                     break
+        else:
+            # Told to stop: nobody consumes the queues any more. A thread that outlives the handler
+            # (a branch of an early-completed map/parallel, a resume timer) must not wait for ever
+            # on a checkpoint that will never be sent - refuse it and wake whoever is still queued.
+            stopped_error: BackgroundThreadError = BackgroundThreadError(
+                "Checkpointing has been stopped",
+                DurableExecutionsError(
+                    "Checkpoint requested after checkpointing was stopped"
+                ),
+            )
+            # flag first: a producer that enqueues concurrently re-checks it after its put()
+            self._checkpointing_failed.set(stopped_error)
+            for pending in (self._overflow_queue, self._checkpoint_queue):
+                while not pending.empty():
+                    try:
+                        item = pending.get_nowait()
+                        if item.completion_event:
+                            item.completion_event.set(stopped_error)
+                    except queue.Empty:
+                        break
 
         logger.debug("Background checkpoint processing stopped")
 
